@@ -1141,6 +1141,12 @@ bool DBObject::setAttribute(CK_ATTRIBUTE_TYPE type, const OSAttribute& attribute
 		ERROR_MSG("Cannot update invalid object.");
 		return false;
 	}
+	if (_transaction && _transactionFailed)
+	{
+		// SQLite may already have rolled the transaction back: a further statement would be committed on its own
+		ERROR_MSG("Cannot update object %lld, an earlier statement of the transaction failed",_objectId);
+		return false;
+	}
 
 	// Retrieve and existing attribute if it exists or NULL if it doesn't
 	OSAttribute *attr = getAttributeDB(type);
@@ -1320,6 +1326,12 @@ bool DBObject::deleteAttribute(CK_ATTRIBUTE_TYPE type)
 	if (_objectId == 0)
 	{
 		ERROR_MSG("Cannot update invalid object.");
+		return false;
+	}
+	if (_transaction && _transactionFailed)
+	{
+		// SQLite may already have rolled the transaction back: a further statement would be committed on its own
+		ERROR_MSG("Cannot update object %lld, an earlier statement of the transaction failed",_objectId);
 		return false;
 	}
 
